@@ -493,7 +493,11 @@ func (it *Interp) runFrame(fr *frame) Value {
 				v := it.get(fr, x.X)
 				panic(&GoPanic{Val: v, Msg: it.panicMsg(v), Kind: "explicit", Pos: it.posString(x.Pos()) + " in " + it.where()})
 			default:
-				it.exec(fr, ins)
+				if it.inInit > 0 {
+					it.execLenient(fr, ins)
+				} else {
+					it.exec(fr, ins)
+				}
 			}
 			if next != nil || done {
 				break
@@ -1339,4 +1343,29 @@ func (it *Interp) abstractDiv(op token.Token, signed bool, x, y *smt.Term) *smt.
 	}
 	it.P.Exact = append(it.P.Exact, c.Eq(r, exact))
 	return r
+}
+
+// execLenient runs one instruction of a package initialiser: an operation the engine cannot perform (opaque
+// operand, unmodelled callee, nondeterministic source) yields an opaque value instead of ending the whole
+// initialiser, so that the remaining package-level variables are still initialised. Opaque values abort any
+// path that later tries to use them.
+func (it *Interp) execLenient(fr *frame, ins ssa.Instruction) {
+	depth := len(it.stack)
+	defer func() {
+		if r := recover(); r != nil {
+			pe, ok := r.(*pathEnd)
+			if !ok || pe.kind != "abort" {
+				panic(r)
+			}
+			it.stack = it.stack[:depth]
+			if v, isVal := ins.(ssa.Value); isVal {
+				if _, isCall := ins.(*ssa.Call); isCall {
+					it.set(fr, v, it.opaqueResult(ins.(*ssa.Call).Call.Signature(), "init: "+pe.reason))
+				} else {
+					it.set(fr, v, OpaqueV{Why: "init: " + pe.reason})
+				}
+			}
+		}
+	}()
+	it.exec(fr, ins)
 }
